@@ -1,12 +1,13 @@
 (* Observation vectors for the C12 contract tie: the same vector hx_value prints. *)
 From Coq Require Import NArith ZArith Bool List.
-From Aelys Require Import Extracted.ValueConsts Model.Value.
+From Aelys Require Import Extracted.ValueConsts Model.Value Model.ValuePool.
 Import ListNotations.
 Local Open Scope Z_scope.
 
 Inductive vq :=
 | QRaw (w : N) | QInt (n : Z) | QIntChecked (n : Z) | QFloat (bits : N) | QBool (b : bool)
-| QNull | QPtr (p : N) | QNested (i : N) | QEq (a b : N).
+| QNull | QPtr (p : N) | QNested (i : N) | QEq (a b : N)
+| QPool (ws : list N).
 
 Definition zb (b : bool) : Z := if b then 1 else 0.
 Definition oz (o : option Z) : list Z := match o with Some z => [1; z] | None => [0; 0] end.
@@ -33,4 +34,5 @@ Definition vobs (q : vq) : list Z :=
   | QPtr p => ctor_obs (v_ptr p)
   | QNested i => ctor_obs (v_nested i)
   | QEq a b => [zb (value_eq a b)]
+  | QPool ws => let '(is, p) := pool_adds [] ws in map Z.of_nat is ++ [Z.of_nat (length p)] ++ map Z.of_N p
   end.
